@@ -25,6 +25,8 @@ struct Walk {
     nbinders: usize,
     max_universe: usize,
     problems: Vec<String>,
+    /// indices of the solution's own binders that are referred to
+    used: Vec<usize>,
 }
 
 impl TypeVisitor<ChalkIr> for Walk {
@@ -35,6 +37,8 @@ impl TypeVisitor<ChalkIr> for Walk {
     fn visit_free_var(&mut self, bv: BoundVar, _outer: DebruijnIndex) -> ControlFlow<()> {
         if bv.debruijn != DebruijnIndex::INNERMOST || bv.index >= self.nbinders {
             self.problems.push(format!("bound variable {:?} is not bound by the solution's own binder list of length {}", bv, self.nbinders));
+        } else {
+            self.used.push(bv.index);
         }
         ControlFlow::Continue(())
     }
@@ -91,16 +95,18 @@ pub fn wf_problems(goal: &UGoal, binders: &CanonicalVarKinds<ChalkIr>, subst: &S
             problems.push(format!("entry {} has the wrong kind: binder {:?}, value {:?}", i, b.kind, a));
         }
     }
-    for b in binders.iter(I) {
-        if b.skip_kind().counter >= goal.universes {
-            problems.push(format!("solution binder in universe {} but the query only has {} universes", b.skip_kind().counter, goal.universes));
+    let mut w = Walk { nbinders: binders.len(I), max_universe: goal.universes, problems: vec![], used: vec![] };
+    let _ = subst.visit_with(&mut w, DebruijnIndex::INNERMOST);
+    // "its substitution uses no universe the query cannot name": only binders the substitution refers to count (a
+    // left-over binder that nothing mentions is not used by the substitution)
+    for (i, b) in binders.iter(I).enumerate() {
+        if b.skip_kind().counter >= goal.universes && w.used.contains(&i) {
+            problems.push(format!("the substitution uses solution variable ^0.{} of universe {} but the query only has {} universes", i, b.skip_kind().counter, goal.universes));
         }
     }
-    let mut w = Walk { nbinders: binders.len(I), max_universe: goal.universes, problems: vec![] };
-    let _ = subst.visit_with(&mut w, DebruijnIndex::INNERMOST);
     // constraints may mention placeholders of any query universe; bound variables must still be the solution's own
     if let Some(c) = constraints {
-        let mut w2 = Walk { nbinders: binders.len(I), max_universe: usize::MAX, problems: vec![] };
+        let mut w2 = Walk { nbinders: binders.len(I), max_universe: usize::MAX, problems: vec![], used: vec![] };
         let _ = c.visit_with(&mut w2, DebruijnIndex::INNERMOST);
         w.problems.extend(w2.problems);
     }
@@ -156,13 +162,124 @@ const RICH_GOALS: &[&str] = &[
     "forall<T> { exists<U, const N> { [T; N] = [U; 4] } }",
 ];
 
+#[derive(Clone, Default)]
+struct RScope {
+    tys: Vec<String>,
+    lts: Vec<String>,
+    n: usize,
+}
+
+fn rich_ty(t: &mut Tape, sc: &RScope, d: usize) -> String {
+    if d == 0 || t.chance(40) {
+        if !sc.tys.is_empty() && t.chance(70) {
+            return sc.tys[t.choose(sc.tys.len())].clone();
+        }
+        return ["A", "B", "u32"][t.choose(3)].into();
+    }
+    match t.choose(3) {
+        0 => format!("V<{}>", rich_ty(t, sc, d - 1)),
+        1 => format!("R<{}, {}>", rich_lt(t, sc), rich_ty(t, sc, d - 1)),
+        _ => format!("&{} {}", rich_lt(t, sc), rich_ty(t, sc, d - 1)),
+    }
+}
+
+fn rich_lt(t: &mut Tape, sc: &RScope) -> String {
+    if !sc.lts.is_empty() && t.chance(85) {
+        sc.lts[t.choose(sc.lts.len())].clone()
+    } else {
+        "'static".into()
+    }
+}
+
+fn rich_leaf(t: &mut Tape, sc: &RScope) -> String {
+    // mostly satisfiable leaves, so that conjunctions have answers
+    match t.choose(20) {
+        // an outer unknown bound to a structure over the innermost variables (their universes have to be lowered)
+        0..=6 if !sc.tys.is_empty() && (!sc.lts.is_empty() || sc.tys.len() > 1) => {
+            let outer = sc.tys[t.choose(sc.tys.len().min(2))].clone();
+            let inner_ty = sc.tys.last().unwrap().clone();
+            let inner = if inner_ty != outer && t.chance(50) { inner_ty } else { "A".into() };
+            let rhs = match (sc.lts.last(), t.choose(3)) {
+                (Some(l), 0) => format!("R<{}, {}>", l, inner),
+                (Some(l), 1) => format!("&{} {}", l, inner),
+                _ => format!("V<{}>", inner),
+            };
+            if t.chance(50) {
+                format!("{} = {}", outer, rhs)
+            } else {
+                format!("{} = {}", rhs, outer)
+            }
+        }
+        7..=9 => {
+            let x = rich_ty(t, sc, 2);
+            format!("{} = {}", x, x)
+        }
+        10 | 11 if !sc.tys.is_empty() => format!("{} = {}", sc.tys[t.choose(sc.tys.len())], rich_ty(t, sc, 2)),
+        12 if sc.lts.len() >= 2 => format!("{} = {}", rich_lt(t, sc), rich_lt(t, sc)),
+        13 => format!("{} = {}", rich_ty(t, sc, 2), rich_ty(t, sc, 2)),
+        14 => "A: Foo".into(),
+        15 => format!("&{} A: Foo", rich_lt(t, sc)),
+        16 => {
+            let l = rich_lt(t, sc);
+            format!("R<{}, A>: Out<{}>", l, l)
+        }
+        17 => {
+            let l = rich_lt(t, sc);
+            format!("&{} {}: Out<{}>", l, rich_ty(t, sc, 1), l)
+        }
+        18 => format!("{}: Foo", rich_ty(t, sc, 2)),
+        _ => format!("{}: Bar<{}>", rich_ty(t, sc, 1), rich_ty(t, sc, 1)),
+    }
+}
+
+fn rich_binder(t: &mut Tape, sc: &mut RScope) -> String {
+    let k = 1 + t.choose(2);
+    let mut names = vec![];
+    for _ in 0..k {
+        sc.n += 1;
+        if t.chance(45) {
+            let n = format!("'l{}", sc.n);
+            sc.lts.push(n.clone());
+            names.push(n);
+        } else {
+            let n = format!("T{}", sc.n);
+            sc.tys.push(n.clone());
+            names.push(n);
+        }
+    }
+    names.join(", ")
+}
+
+/// goals in which the solver itself has to open quantifiers: forall / exists blocks sit inside conjunctions, with
+/// unknowns of every universe flowing into the outer unknowns through equalities
+fn gen_rich_goal(t: &mut Tape) -> String {
+    fn block(t: &mut Tape, sc: &RScope, depth: usize) -> String {
+        let n = 1 + t.choose(3);
+        let mut items = vec![];
+        for _ in 0..n {
+            if depth > 0 && t.chance(45) {
+                let mut sc2 = sc.clone();
+                let q = if t.chance(60) { "forall" } else { "exists" };
+                let b = rich_binder(t, &mut sc2);
+                items.push(format!("{}<{}> {{ {} }}", q, b, block(t, &sc2, depth - 1)));
+            } else {
+                items.push(rich_leaf(t, sc));
+            }
+        }
+        items.join(", ")
+    }
+    let mut sc = RScope::default();
+    let b = rich_binder(t, &mut sc);
+    format!("exists<{}> {{ {} }}", b, block(t, &sc, 3))
+}
+
 impl Property for C28 {
     type Case = Case;
     fn id(&self) -> &'static str {
         "C28"
     }
     fn rule(&self) -> String {
-        "case = either a generated F-horn(+auto/coinductive) program with 4 goals (C01 generator), or 4 goals drawn from a fixed goal pool over a program with lifetime, const, integer and float unknowns and nested forall/exists; every solution returned by both solvers (Unique, definite/suggested guidance) and every answer enumerated by SLG's solve_multiple (up to 12) is checked structurally: one substitution entry per query unknown with the same kind, bound variables refer only to the solution's own binders (depth-aware walk), no inference variable, substitution placeholders and binder universes < number of query universes, and Substitution::apply on the query does not panic. Non-trivial = solution with >=1 binder or >=1 placeholder in its substitution; distinct by hash of (program, goal, solver, rendered answer).".into()
+        "case = either a generated F-horn(+auto/coinductive) program with 4 goals (C01 generator), or 4 goals over a fixed program with lifetime, const, integer and float unknowns — drawn from a goal pool or generated (exists-prefixed conjunctions whose conjuncts are equalities / trait goals or nested forall/exists blocks, so the solver itself opens quantifiers and unknowns of inner universes flow into outer unknowns); every solution returned by both solvers (Unique, definite/suggested guidance) and every answer enumerated by SLG's solve_multiple (up to 12) is checked structurally: one substitution entry per query unknown with the same kind, bound variables refer only to the solution's own binders (depth-aware walk), no inference variable, substitution placeholders and binder universes < number of query universes, and Substitution::apply on the query does not panic. Non-trivial = solution with >=1 binder or >=1 placeholder in its substitution; distinct by hash of (program, goal, solver, rendered answer).".into()
     }
     fn assumptions(&self) -> Vec<String> {
         vec!["unused solution binders are not an error; constraints may mention any placeholder of the query".into()]
@@ -172,7 +289,7 @@ impl Property for C28 {
     }
     fn decode(&self, t: &mut Tape, _tier: Tier) -> Case {
         if t.chance(45) {
-            Case::Rich((0..4).map(|_| RICH_GOALS[t.choose(RICH_GOALS.len())].to_string()).collect())
+            Case::Rich((0..4).map(|_| if t.chance(50) { RICH_GOALS[t.choose(RICH_GOALS.len())].to_string() } else { gen_rich_goal(t) }).collect())
         } else {
             let cfg = if t.chance(50) { GenCfg::horn_auto() } else { GenCfg::horn() };
             Case::Horn(super::c01::decode_pg(t, &cfg, &GoalCfg { force_exists: true, ..GoalCfg::full() }, 4))
